@@ -87,7 +87,8 @@ def eval_basis(atcoords, shells, conventions, pts):
 
     shells: list of (icenter, angmoms, kinds, exponents, coeffs[nexp][ncon]) plain python/numpy.
     Returns (B, A): B[npt, nbasis] values, A[npt, nbasis] the sum of the absolute values of the primitive
-    terms (used for error bounds).
+    terms, each weighted by (1 + alpha r^2 + l/2): the first-order forward error of the value per unit relative
+    error of the printed numbers (used for error bounds).
     """
     cols, acols = [], []
     for icenter, angmoms, kinds, exps, coeffs in shells:
@@ -128,7 +129,9 @@ def eval_basis(atcoords, shells, conventions, pts):
                 for k in range(len(exps)):
                     t = float(coeffs[k][icon]) * norms[k] * poly * gauss[k]
                     val = val + t
-                    aval = aval + np.abs(t)
+                    # forward-error weight of this primitive term: a relative error e in alpha changes
+                    # exp(-alpha r^2) by alpha r^2 e and the normalisation by (l/2 + 3/4) e
+                    aval = aval + np.abs(t) * (1.0 + float(exps[k]) * r2 + 0.5 * l)
                 cols.append(sign * val)
                 acols.append(aval)
     if not cols:
@@ -419,7 +422,7 @@ def wf_values(data, pts):
     C = np.asarray(data.mo.coeffs, float)
     if C.shape[0] != B.shape[1]:
         raise ValueError(f"coefficient rows {C.shape[0]} != basis functions {B.shape[1]}")
-    return B @ C, A @ np.abs(C), B
+    return B @ C, A @ np.abs(C), B, A
 
 
 def compare_wf(src, dst, fmt, seed, offgrid=False, src_pred=None):
@@ -437,9 +440,9 @@ def compare_wf(src, dst, fmt, seed, offgrid=False, src_pred=None):
         out.append(("nuclei", "coordinates moved by %.2e" % np.abs(np.asarray(src.atcoords) - np.asarray(dst.atcoords)).max()))
         return out
     pts = probe_points(src.atcoords, seed)
-    v0, a0, b0 = wf_values(src, pts)
+    v0, a0, b0, w0 = wf_values(src, pts)
     try:
-        v1, a1, b1 = wf_values(dst, pts)
+        v1, a1, b1, _w1 = wf_values(dst, pts)
     except (ValueError, KeyError, IndexError) as exc:
         out.append(("reloaded-object-inconsistent", repr(exc)[:200]))
         return out
@@ -504,10 +507,83 @@ def compare_wf(src, dst, fmt, seed, offgrid=False, src_pred=None):
             # D as a bilinear form at pairs of probe points: rho(r, r') = b(r)^T D b(r')
             f0 = b0 @ d0 @ b0.T
             f1 = b1 @ d1 @ b1.T
-            scale = np.abs(b0) @ np.abs(d0) @ np.abs(b0).T
+            scale = w0 @ np.abs(d0) @ w0.T
             if (np.abs(f1 - f0) > 1e-6 * scale + 1e-13).any():
                 out.append(("density:" + key, f"max |d rho| {np.abs(f1 - f0).max():.3e} (scale {scale.max():.3e})"))
     return out
+
+
+def file_values(fmt, text, atcoords, pts, tabs, norb_hint=None):
+    """Orbital values at pts denoted by the *file*, from my own tokenizers (iodata's readers are not involved).
+
+    WFN/WFX: primitive type codes are interpreted with the AIMALL list, primitives are un-normalised.
+    Molden/MKL/FCHK: shells as written, functions ordered as in the format module's CONVENTIONS table.
+    """
+    atcoords = np.asarray(atcoords, float)
+    if fmt in ("wfn", "wfx"):
+        f = parse_wfn(text) if fmt == "wfn" else parse_wfx(text)
+        cols = []
+        for c, t, a in zip(f["centers"], f["types"], f["exps"]):
+            d = pts - atcoords[c][None, :]
+            nx, ny, nz = _lab_powers(AIMALL[t - 1])
+            cols.append(d[:, 0] ** nx * d[:, 1] ** ny * d[:, 2] ** nz * np.exp(-a * (d * d).sum(axis=1)))
+        return np.stack(cols, axis=1) @ f["coeffs"]
+    if fmt == "molden":
+        f = parse_molden(text)
+        shells = [(c, [l], ["p" if (l in f["pure"] and l >= 2) else "c"], ex, [[x] for x in cf]) for c, l, ex, cf in f["shells"]]
+        C = np.array([o[4] for o in f["orbs"]], float).T
+        return eval_basis(atcoords, shells, tabs["molden"], pts)[0] @ C
+    if fmt == "molekel":
+        f = parse_mkl(text)
+        shells = [(ns, [l], ["c" if nfn == (l + 1) * (l + 2) // 2 else "p"], ex, [[x] for x in cf]) for ns, nfn, l, ex, cf in f["shells"]]
+        if any(sh[0] >= len(atcoords) for sh in shells):
+            raise IndexError("centre index beyond the atoms")
+        B = eval_basis(atcoords, shells, tabs["molekel"], pts)[0]
+        C = mkl_blocks(f["alpha"], B.shape[1])[2]
+        if f["beta"]:
+            C = np.concatenate([C, mkl_blocks(f["beta"], B.shape[1])[2]], axis=1)
+        return B @ C
+    if fmt == "fchk":
+        f = parse_fchk(text)
+        shells, k = [], 0
+        sp = f.get("P(S=P) Contraction coefficients")
+        for st, n, at in zip(f["Shell types"], f["Number of primitives per shell"], f["Shell to atom map"]):
+            ex = f["Primitive exponents"][k:k + n]
+            cf = f["Contraction coefficients"][k:k + n]
+            if st == -1:
+                shells.append((at - 1, [0, 1], ["c", "c"], ex, [[a, b] for a, b in zip(cf, sp[k:k + n])]))
+            else:
+                shells.append((at - 1, [abs(st)], ["p" if st < 0 else "c"], ex, [[a] for a in cf]))
+            k += n
+        nb = f["Number of basis functions"]
+        C = np.array(f["Alpha MO coefficients"]).reshape(-1, nb).T
+        if "Beta MO coefficients" in f:
+            C = np.concatenate([C, np.array(f["Beta MO coefficients"]).reshape(-1, nb).T], axis=1)
+        return eval_basis(atcoords, shells, tabs["fchk"], pts)[0] @ C
+    raise ValueError(fmt)
+
+
+def compare_file(src, fmt, text, seed, tabs, offgrid=False):
+    """Does the written file, read by my own tokenizer, denote the same orbitals?  -> list of (kind, detail)"""
+    pts = probe_points(src.atcoords, seed)
+    v0, a0, b0, _w0 = wf_values(src, pts)
+    if src.mo.kind == "restricted" and src.mo.occs_aminusb is not None and fmt != "fchk":
+        v0, a0 = np.concatenate([v0, v0], axis=1), np.concatenate([a0, a0], axis=1)
+    try:
+        v1 = file_values(fmt, text, src.atcoords, pts, tabs)
+    except Exception as exc:
+        return [("file-unreadable", f"{type(exc).__name__}: {exc}"[:160])]
+    if v1.shape != v0.shape:
+        return [("file-orbital-count", f"{v0.shape[1]} orbitals in the object, {v1.shape[1]} in the file")]
+    tol = TOL_MKL_OFFGRID if (fmt == "molekel" and offgrid) else TOL[fmt]
+    bound = tol * (a0 + 1e-12) + 1e-13
+    if fmt == "molekel":
+        bound = bound + 2e-12 * np.abs(b0).sum(axis=1)[:, None]
+    err = np.abs(v1 - v0)
+    if (err > bound).any():
+        j = int(np.argmax((err / bound).max(axis=0)))
+        return [("file-values", f"orbital {j} as written: |dv| max {err[:, j].max():.3e} allowed {bound[:, j].max():.3e}")]
+    return []
 
 
 def roundtrip(data, fmt, allow, workdir=None):
@@ -811,7 +887,7 @@ def classify_known(fmt, data, kinds, status, msg, text, back, tabs):
     """Name of the known defect whose exact fingerprint the written file carries, else None."""
     try:
         src = plain_source(data, fmt)
-        if fmt in ("wfn", "wfx") and status == "ok" and set(kinds) <= {"orbital-values"}:
+        if fmt in ("wfn", "wfx") and status == "ok" and set(kinds) <= {"orbital-values", "file-values"}:
             if any(k != "c" for s in src["shells"] for k in s[2]):
                 return None
             f = parse_wfn(text) if fmt == "wfn" else parse_wfx(text)
@@ -822,7 +898,7 @@ def classify_known(fmt, data, kinds, status, msg, text, back, tabs):
             if same_struct and _close(f["coeffs"], bad[3], rt, 1e-14) and not _close(f["coeffs"], good[3], rt, 1e-14):
                 return f"{fmt}:scales-source-conventions"
             return None
-        if fmt == "molden" and set(kinds) <= {"orbital-values", "load-error:LoadError"}:
+        if fmt == "molden" and set(kinds) <= {"orbital-values", "load-error:LoadError", "file-values"}:
             centers = [s[0] for s in src["shells"]]
             if centers == sorted(centers):
                 return None
@@ -843,7 +919,8 @@ def classify_known(fmt, data, kinds, status, msg, text, back, tabs):
             return None
         if fmt == "molekel":
             m = data.mo
-            if status == "load-error" and "Wrong number of energies" in (msg or "") and m.kind == "unrestricted" \
+            if status == "load-error" and ("Wrong number of energies" in (msg or "") or "Expect irrep" in (msg or "")) \
+                    and m.kind == "unrestricted" \
                     and m.irreps is not None and m.norba != m.norbb:
                 f = parse_mkl(text)
                 labs = [r for r in f["beta"][:: 2 + int(data.obasis.nbasis)]] if f["beta"] else []
@@ -858,7 +935,7 @@ def classify_known(fmt, data, kinds, status, msg, text, back, tabs):
                     n += 1
                 last = c
                 seen.append(n)
-            if seen != centers and set(kinds) <= {"orbital-values", "load-error:LoadError", "reloaded-object-inconsistent"}:
+            if seen != centers and set(kinds) <= {"orbital-values", "load-error:LoadError", "reloaded-object-inconsistent", "file-values", "file-unreadable"}:
                 f = parse_mkl(text)
                 rows = convert_rows(src["shells"], src["conv"], tabs["molekel"], src["C"])
                 nb = rows.shape[0]
@@ -867,7 +944,6 @@ def classify_known(fmt, data, kinds, status, msg, text, back, tabs):
                 cols = np.concatenate([ca, cb], axis=1) if f["beta"] else ca
                 if [s[0] for s in f["shells"]] == seen and _close(cols, rows, 0, 6e-13):
                     return "molekel:center-separators"
-                return None
             ghost = abs(float(np.sum(data.atnums)) - float(np.sum(data.atcorenums))) > 1e-9
             if status == "load-error" and ghost and ("inconsistent with number of electrons" in (msg or "")
                                                      or "Odd number of electrons" in (msg or "")):
@@ -989,6 +1065,9 @@ def run_case(case):
     else:
         diffs = compare_wf(data, back, fmt, seed, offgrid=offgrid)
         kinds, details = [k for k, _ in diffs], "; ".join(f"{k}: {d}" for k, d in diffs)
+    fdiffs = compare_file(data, fmt, text, seed, tabs, offgrid=offgrid)
+    kinds += [k for k, _ in fdiffs]
+    details = "; ".join([details or ""] + [f"{k}: {d}" for k, d in fdiffs]).strip("; ")
     res["nontrivial"] = True
     if not kinds:
         res["cls"] = f"{fmt}/same"
@@ -1010,7 +1089,10 @@ RULE = (
     "occs_aminusb/natural orbitals with and without virtuals, optional irreps and SCF density matrices) x 5 formats x "
     "allow_changes, plus every corpus wavefunction file (as loaded, and re-expressed in HORTON2/random conventions and "
     "reversed/shuffled shell order) as a conversion source; dump_one -> load_one -> every orbital evaluated at 20 probe points "
-    "with an evaluator written from docs/basis.rst, occupations, energies, spin labelling, densities as bilinear forms. "
+    "with an evaluator written from docs/basis.rst, occupations, energies, spin labelling, densities as bilinear forms; and the "
+    "written file itself tokenized without iodata (WFN/WFX type codes read with the AIMALL list, un-normalised primitives) and "
+    "evaluated at the same points. A failure is named after a known defect only when the file carries that defect's exact "
+    "quantitative fingerprint (otherwise it is reported under a generic signature and alarms). "
     "non-trivial = the dump succeeded, so the reload and the comparison were actually performed. "
     "corr: tracer objects (integer coefficients and contraction coefficients) written by the real writers, tokenized "
     "independently, normalisation divided out, compared with the Lean model's rows"
@@ -1027,8 +1109,10 @@ ASSUMPTIONS = [
     "and the only algebra used is cancellation of a non-zero factor",
     "text scanning of the five formats is not modelled in Lean (structural level: which number goes where)",
     "numpy fancy indexing / broadcasting as transcribed in Model/Wf.lean",
-    "tolerances: orbital values within 100 x the relative precision of the digits each writer prints, scaled by the sum of "
-    "absolute primitive contributions (documented at TOL in c01.py)",
+    "tolerances: orbital values within 100 x the relative precision of the digits each writer prints, times the first-order "
+    "forward error weight sum |primitive term| (1 + alpha r^2 + l/2) |C| (documented at TOL in c01.py)",
+    "Molden/Molekel/FCHK files are evaluated with the function order of the format module's CONVENTIONS table (T1 = spec); "
+    "WFN/WFX type codes with the AIMALL list copied into the harness",
 ]
 TIME_LIMIT = {"quick": 900, "thorough": 5400}
 
@@ -1242,6 +1326,16 @@ def probe_flags():
     if labs not in ([3, 4, 5], [4, 5]):
         raise ValueError(f"molekel probe: beta irreps {labs}")
     flags["mklBetaIrrepsUseNorbb"] = labs == [3, 4, 5]
+    t5 = {"natom": 3, "shells": [(2, 0, "c", [(0, 1)]), (0, 0, "c", [(1, 1)])], "conv": conv, "cols": [[1, 2]], "kind": "restricted"}
+    f = parse_mkl(dump_text(tracer_object(t5), "molekel"))
+    seps = [sh[0] for sh in f["shells"]]
+    col = [round(x) for x in mkl_blocks(f["alpha"], 2)[2][:, 0]]
+    if (seps, col) == ([1, 2], [1, 2]):
+        flags["mklSeparatorsPerCentre"] = False
+    elif (seps, col) == ([0, 2], [2, 1]):
+        flags["mklSeparatorsPerCentre"] = True
+    else:
+        raise ValueError(f"molekel probe: separators {seps}, rows {col}")
     t4 = {"natom": 1, "shells": [(0, 2, "c", [(0, 1)])], "conv": conv, "cols": [[1, 2, 3, 4, 5, 6]], "kind": "restricted",
           "dm": [[(i + 1) * (j + 1) + (7 if i == j else 0) for j in range(6)] for i in range(6)]}
     f = parse_fchk(dump_text(tracer_object(t4), "fchk"))
@@ -1262,6 +1356,7 @@ DOC = {
     "wfxScalesFromSource": "wfx.py: same",
     "moldenRowsFollowSort": "molden.py: coefficient rows re-ordered like the `[GTO]` shells sorted by centre",
     "mklBetaIrrepsUseNorbb": "molekel.py: beta irreps sliced with `norbb`",
+    "mklSeparatorsPerCentre": "molekel.py: shells written sorted by centre with one `$$` per centre passed, rows following",
     "fchkDensitiesConverted": "fchk.py: density matrices converted to the FCHK conventions",
 }
 _FLAGS = None
